@@ -52,6 +52,17 @@ static void mismatch(const char* kind, long id, const char* var, long x4, long r
   if (n < 6 && printed < 20000) { n++; printed++; printf("MISMATCH %s %ld %s %ld %ld %s\n", kind, id, var, x4, res, text.c_str()); }
 }
 
+// The object a grid is set on: fresh, or one that was initialised with MORE or with FEWER nodes before and then re-initialised
+// through the public ini() - the grid is a function of the last initialisation and the last Set_xrange only.
+static std::unique_ptr<SQuIDS> make_obj(long nx, long k) {
+  if (k % 3 == 0) return std::unique_ptr<SQuIDS>(new SQuIDS(nx, 2, 1, 0));
+  long other = (k % 3 == 1) ? nx + 2 + k % 5 : std::max(2L, nx - 1 - k % 2);
+  std::unique_ptr<SQuIDS> o(new SQuIDS(other, 2, 1, 0));
+  o->Set_xrange(1.0, 64.0, "log");
+  o->ini(nx, 2, 1, 0, 0.0);
+  return o;
+}
+
 static int table_mode() {
   std::ios::sync_with_stdio(false);
   std::map<unsigned, std::unique_ptr<SQuIDS>> objs, objs2;
@@ -66,7 +77,7 @@ static int table_mode() {
       std::vector<std::vector<long>> allowed(nxs);
       for (auto& a : allowed) { long c; std::cin >> c; a.resize(c); for (auto& y : a) std::cin >> y; }
       ngrids++; cur_nx = nx; cur_lin = lin;
-      if (!objs.count(nx)) { objs[nx].reset(new SQuIDS(nx, 2, 1, 0)); objs2[nx].reset(new SQuIDS(nx, 2, 1, 0)); }
+      if (!objs.count(nx)) { objs[nx] = make_obj(nx, nx + 1); objs2[nx] = make_obj(nx, nx); }
       SQuIDS& o = *objs[nx];
       for (int vi = 0; vi < NVAR; vi++) {
         const Variant& v = VARIANTS[vi];
@@ -109,7 +120,7 @@ static int table_mode() {
           SQuIDS& p = *objs2[nx];
           static const char* names[] = {"linear", "Linear", "lin", "Lin"};
           try { p.Set_xrange(xs.front(), xs.back(), names[(id + vi) % 4]); } catch (std::exception& e) { mismatch("SetRange", id, v.name, 0, -1, std::string("threw:") + e.what()); continue; }
-          bool eq = true;
+          bool eq = p.Get_xrange().size() == (size_t)nx && p.Get_nx() == (unsigned)nx;
           for (long i = 0; i < nx; i++) if (p.Get_x(i) != xs[i]) eq = false;
           if (!eq) mismatch("SetRange", id, v.name, 0, 0, "linear-nodes-not-exact");
           for (long q = 0; q < nxs; q++) {
@@ -185,7 +196,7 @@ static int trace_mode(int argc, char** argv) {
     }
     std::vector<double> xs(nx);
     for (long i = 0; i < nx; i++) xs[i] = (double)nodes[i];
-    SQuIDS o(nx, 2, 1, 0);
+    std::unique_ptr<SQuIDS> op = make_obj(nx, c); SQuIDS& o = *op;
     o.Set_xrange(xs);
     std::vector<long> img(nx);
     for (long i = 0; i < nx; i++) img[i] = 4 * nodes[i];
@@ -226,7 +237,7 @@ static int trace_mode(int argc, char** argv) {
         if (c % 11 == 7) { a = std::pow(10.0, 290 + U(rng) * 10); b = a * (1.5 + U(rng) * 50); }
       }
       if (!(a < b)) continue;
-      SQuIDS o(nx, 2, 1, 0);
+      std::unique_ptr<SQuIDS> op = make_obj(nx, c + kind); SQuIDS& o = *op;
       static const char* lnames[] = {"linear", "Linear", "lin", "Lin"};
       static const char* gnames[] = {"log", "Log"};
       o.Set_xrange(a, b, kind == 0 ? lnames[c % 4] : gnames[c % 2]);
